@@ -1,6 +1,7 @@
 CONSTANTS
-  Descs = {1, 2, 3, 4, 5, 6, 8}
-  ExportDescs = {5, 6, 8}
+  Descs = {1, 2, 3, 4, 5, 6, 7, 8}
+  ExportDescs = {5, 6, 7, 8}
+  GpuDescs = {7}
   PVariant = "asis"
 SPECIFICATION MCSpec
 INVARIANT TypeOK
